@@ -3,4 +3,5 @@ import EmdModel.H5
 import EmdModel.Tree
 import EmdModel.Write
 import EmdModel.Save
+import EmdModel.SaveList
 import EmdModel.Read
